@@ -183,3 +183,45 @@ impl VPool {
         v
     }
 }
+
+// ---------------------------------------------------------------------------------------------
+// RPC service with a counting handler (get_block RPC: INFLIGHT = 5) over a caller transport.
+use zksync_concurrency::{limiter, time};
+
+struct CountingHandler(std::sync::Arc<dyn Fn(time::Instant) + Send + Sync>);
+
+#[async_trait::async_trait]
+impl rpc::Handler<rpc::get_block::Rpc> for CountingHandler {
+    fn max_req_size(&self) -> usize {
+        zksync_protobuf::kB
+    }
+    async fn handle(&self, ctx: &ctx::Ctx, _req: rpc::get_block::Req) -> anyhow::Result<rpc::get_block::Resp> {
+        (self.0)(ctx.now());
+        Ok(rpc::get_block::Resp(None))
+    }
+}
+
+/// Number of concurrent calls allowed for the RPC used by `run_counting_server`.
+pub const COUNTING_RPC_INFLIGHT: u32 = <rpc::get_block::Rpc as rpc::Rpc>::INFLIGHT;
+
+/// `rpc::Service::new().add_server(handler, rate).run(transport)`; `on_start` is called with
+/// `ctx.now()` whenever the handler starts serving a call.
+pub async fn run_counting_server<S: io::AsyncRead + io::AsyncWrite + Send>(ctx: &ctx::Ctx, transport: S, rate: limiter::Rate, on_start: std::sync::Arc<dyn Fn(time::Instant) + Send + Sync>) -> Result<(), String> {
+    rpc::Service::new().add_server::<rpc::get_block::Rpc>(ctx, CountingHandler(on_start), rate).run(ctx, transport).await.map_err(|e| format!("{e:#}"))
+}
+
+pub struct VRpcClient(rpc::Client<rpc::get_block::Rpc>);
+
+impl VRpcClient {
+    pub fn new(ctx: &ctx::Ctx, rate: limiter::Rate) -> Self {
+        Self(rpc::Client::new(ctx, rate))
+    }
+    /// `rpc::Service::new().add_client(client).run(transport)`.
+    pub async fn run<S: io::AsyncRead + io::AsyncWrite + Send>(&self, ctx: &ctx::Ctx, transport: S) -> Result<(), String> {
+        rpc::Service::new().add_client(&self.0).run(ctx, transport).await.map_err(|e| format!("{e:#}"))
+    }
+    /// One call (`Client::call`).
+    pub async fn call(&self, ctx: &ctx::Ctx, n: u64) -> Result<(), String> {
+        self.0.call(ctx, &rpc::get_block::Req(zksync_consensus_roles::validator::BlockNumber(n)), zksync_protobuf::kB).await.map(|_| ()).map_err(|e| format!("{e:#}"))
+    }
+}
